@@ -120,13 +120,14 @@ async def _run_receiver(pdus, directory=None):
 def gen_family(rng, thorough):
     """Returns (messages, arrival order). message = dict(method, ref, dc, parts, payload)"""
     nmsg = rng.choice([1, 1, 2, 2, 3])
+    force16 = nmsg >= 2 and rng.random() < 0.25       # a family of messages that all use the 16-bit reference
     msgs = []
     refs = rng.sample([0, 0, 0, 1, 255] + list(range(0, 256)), nmsg)
     while len(set(refs)) < nmsg:
         refs = rng.sample(range(0, 256), nmsg)
     wide = rng.sample([0, 255, 256, 65535, 4660, 513], nmsg)
     for i in range(nmsg):
-        method = rng.choice(['sar', 'udh8', 'udh16'])
+        method = 'udh16' if force16 else rng.choice(['sar', 'udh8', 'udh16'])
         ref = refs[i] if method != 'udh16' else (256 + refs[i] * 200 if rng.random() < 0.6 or wide[i] in refs else wide[i])
         dc = rng.choice([0, 8])
         n = rng.choice([2, 3, 4, 9, 10, 11, 12] + ([255] if thorough and rng.random() < 0.05 else [])) if rng.random() < 0.8 else rng.randint(2, 40)
@@ -139,6 +140,16 @@ def gen_family(rng, thorough):
             else:
                 parts.append(''.join(rng.choice(['ы', '😀', '你', 'a', '𝄞']) for _ in range(L)) + f'#{s + 1}' + rng.choice([';', ';', '\u4e00', '\u0100', '\U0001F600']))
         msgs.append({'method': method, 'ref': ref, 'dc': dc, 'parts': parts, 'payload': rng.random() < 0.3})
+    # 16-bit references that differ in the high octet only (and from every 8-bit reference in the family)
+    w16 = [m for m in msgs if m['method'] == 'udh16']
+    if len(w16) >= 2 and rng.random() < 0.7:
+        low = rng.choice([0x00, 0x34, 0xFF])
+        taken = {m['ref'] for m in msgs if m['method'] != 'udh16'}
+        for j, m in enumerate(w16):
+            m['ref'] = low + 256 * (j + 1 + rng.choice([0, 7, 100]))
+            while m['ref'] in taken:
+                m['ref'] += 256
+            taken.add(m['ref'])
     # arrival order: independent permutations, interleaved at random
     queues = []
     for mi, m in enumerate(msgs):
